@@ -179,7 +179,8 @@ def _ev(sv, env):
         try:
             if sv[1] in ("In", "NotIn"):
                 return (a in b) == (sv[1] == "In")
-            return {"Eq": a == b, "NotEq": a != b, "Lt": a < b, "LtE": a <= b, "Gt": a > b, "GtE": a >= b, "Is": a is b or a == b, "IsNot": not (a is b or a == b)}[sv[1]]
+            return {"Eq": lambda: a == b, "NotEq": lambda: a != b, "Lt": lambda: a < b, "LtE": lambda: a <= b, "Gt": lambda: a > b, "GtE": lambda: a >= b,
+                    "Is": lambda: a is b or a == b, "IsNot": lambda: not (a is b or a == b)}[sv[1]]()
         except TypeError as e:
             raise CannotEval(str(e))
     if t == "bool":
@@ -238,6 +239,13 @@ def _ev(sv, env):
                 return getattr(args[0], sv[1][1:])(*args[1:])
             except (TypeError, ValueError) as e:
                 raise CannotEval(str(e))
+    if t == "call" and sv[1] == "type" and len(sv[2]) == 1:
+        return type(ev(sv[2][0], env))
+    if t == "call" and sv[1] == "isinstance" and len(sv[2]) == 2:
+        try:
+            return isinstance(ev(sv[2][0], env), ev(sv[2][1], env))
+        except TypeError as e:
+            raise CannotEval(str(e))
     if t == "call" and sv[1] in ("bytes", "bytearray") and len(sv[2]) == 1:
         return {"bytes": bytes, "bytearray": bytearray}[sv[1]](ev(sv[2][0], env))
     raise CannotEval(f"leaf/kind {sv[:2]}")
